@@ -1264,6 +1264,12 @@ MUTANTS = [
         }""", new="""            let _ = new_observations;
         }""",
          expect="C01.s/clean_query/firewall-set-and-observations-replaced-together"),
+    dict(id="C05.e-guard-drop-skips-when-panicking", prop="C05", file="crates/qbice/src/engine/guard.rs",
+         old="        if let Some(future) = self.future.take() {", new="        if std::thread::panicking() {\n            return;\n        }\n\n        if let Some(future) = self.future.take() {",
+         expect="C05.e/Guard/drop-spawns"),
+    dict(id="C06.h-D9-cyclic-answer-of-callee-repair-discarded", prop="C06", file=CG + "repair.rs",
+         old="            if repaired.is_err() {\n                return CalleeCheckDecision::Recompute;\n            }\n", new="            let _ = repaired;\n",
+         expect="C06.h/check_callee/cyclic-answer-of-the-callee-repair-is-not-discarded"),
     # ------------------------------------------------------------------ C09.f (D5)
     dict(id="C09.f-D5-fold-heap-in-arbitrary-order", prop="C09", file=ST + "key_of_set_map/cache.rs",
          old="""        let mut ordered = log.iter().collect::<Vec<_>>();
